@@ -182,7 +182,8 @@ def _c3(cls: ClassInfo) -> list:
 
 class Program:
     def __init__(self, root: str = "/repo", overlays: Optional[Dict[str, str]] = None, pkg: str = PKG,
-                 extra_files: Optional[Dict[str, str]] = None, inline: bool = True):
+                 extra_files: Optional[Dict[str, str]] = None, inline: bool = True,
+                 normal: bool = True):
         self.root = root
         self.pkg = pkg
         self._ctor = (root, overlays, pkg, extra_files)
@@ -232,6 +233,10 @@ class Program:
             self._resolve_bases(c)
         self._dead = None
         self.inliner = None
+        if normal:
+            # normal form: interchangeable spellings of one statement (kdverif/normal.py)
+            from .normal import normalise as _normalise_spellings
+            _normalise_spellings(self)
         if inline:
             # normal form: private helpers are inlined into their callers (kdverif/inline.py)
             from .inline import normalise
